@@ -24,8 +24,9 @@ PID = "C05"
 RULE = ("one case = random map pipeline x persisting storage (uniform/mixed) x sequential|SimExecutor(thread/process) "
         "[x pre-existing folder of a different run]; all single interruptions of the uninterrupted run are enumerated: "
         "process death before each file-system event (mkdir/open/raw write/unlink/rmdir/replace), torn variants "
-        "(1, n/2, n-1 bytes) of each raw write, a raise at each user-function call; thorough adds pairs (second "
-        "interruption inside the resumed run). evaluations = interruption plans executed; distinct_nontrivial = "
+        "(1, n/2, n-1 bytes) of each raw write, a raise at each user-function call; pairs (second interruption inside the resumed run) and "
+        "two-episode plans (a later cleanup=True map into the same folder dies as well); about 12% of the cases run every attempt and the reference "
+        "restricted by fixed_indices; defaults may be NumPy string arrays and mapped arrays may come from defaults. evaluations = interruption plans executed; distinct_nontrivial = "
         "distinct post-interruption file-system states (tree digest) in which at least one file of the run existed")
 COMPONENTS = {
     "real": ["pipefunc run_map/prepare_run/RunInfo/_compare_to_previous_run_info", "FileArray/DictArray/SharedMemoryDictArray",
